@@ -168,6 +168,15 @@ func Check(calls []Sys, dir string, segSize int) (*Violation, Stats) {
 					}
 				}
 			}
+			if curOp == "DeleteRange" && curPhase == "ok" {
+				// a truncation that force-sealed the tail commits that seal to the metadata: the index and
+				// commit frames it wrote must have been fsynced by then, like any other commit
+				for p, fs := range files {
+					if strings.HasSuffix(p, ".wal") && fs.exists && fs.dirty {
+						return vio("truncation-ack-before-fsync", "step %s DeleteRange returned nil while %s has bytes written but not fsynced", step, filepath.Base(p)), st
+					}
+				}
+			}
 			if curOp == "Set" && curPhase == "ok" {
 				st.SetOK++
 				if fs := files[metaFinal]; fs != nil && fs.dirty {
